@@ -406,6 +406,42 @@ def r17_8(prog, rep):
     absorb(rep, sub, {"R08.6": "R17.8"})
 
 
+def r17_13(prog, rep):
+    """origin(): "its typing origin after NewType and alias resolution".  The wrappers nest in any order -- an alias of a NewType,
+    a ClassVar of an alias, a NewType of an alias -- so peeling each kind once, in a fixed order, leaves whatever sat beneath
+    the last wrapper removed unexamined.  Decided structurally: origin() starts from unwrap() (whose fixpoint is R11.1), or
+    some exit hands the peeled value back to origin() itself under a test that asks all three wrapper questions of it
+    (NewType: `__supertype__`; ClassVar; alias), and that peeled value is the one the other exits give to typing.get_origin."""
+    f = prog.function(f"{C.INSP}.origin")
+    ps = P.splice_helpers(prog, P.paths_of(prog, f))
+    ann = ("param", f.params[0])
+    if any(T.contains(tm, lambda x: T.is_call_to(x, f"{C.INSP}.unwrap") and x[2][:1] == (ann,)) for p in ps for tm in p.all_terms()):
+        rep.held("R17.13", f.qualname, f.loc, "origin() starts from unwrap(annotation)", detail="origin-wrappers-fixpoint")
+        return
+    peels = any(T.contains(tm, lambda x: (x[0] == "attr" and x[2] in ("__value__", "__supertype__")) or T.is_call_to(x, f"{C.INSP}.resolve_supertype")) for p in ps for tm in p.all_terms())
+    if not peels:
+        rep.undecided("R17.13", f.qualname, f.loc, "no wrapper is peeled in origin(): outside the idiom set", detail="origin-wrappers-fixpoint")
+        return
+    again = []
+    for p, r in P.returns(ps):
+        if T.is_call_to(r, f.qualname) and r[2] and r[2][0] != ann:
+            v = r[2][0]
+            kinds = set()
+            for g, _pol in p.guards():
+                for x in T.walk(g):
+                    if T.is_call_to(x, "builtins.hasattr") and x[2][:1] == (v,) and len(x[2]) > 1 and x[2][1] == ("const", "__supertype__"):
+                        kinds.add("newtype")
+                    if T.is_call_to(x, f"{C.INSP}.isclassvartype") and x[2][:1] == (v,):
+                        kinds.add("classvar")
+                    if T.is_call_to(x, f"{C.INSP}.istypealiastype") and x[2][:1] == (v,):
+                        kinds.add("alias")
+            again.append((v, kinds))
+    full = [v for v, kinds in again if kinds >= {"newtype", "classvar", "alias"}]
+    used = [x[2][0] for p, r in P.returns(ps) if not T.is_call_to(r, f.qualname) for tm in p.all_terms() for x in T.walk(tm) if T.is_call_to(x, "typing.get_origin") and x[2]]
+    same = bool(full) and bool(used) and all(u in full for u in used)
+    rep.check(same, "R17.13", f.qualname, f.loc, "what is left after peeling is examined again for all three wrapper kinds before it is taken for the origin", "origin() peels NewType, ClassVar and alias once each, in a fixed order, and takes what is left for the origin: an alias of a NewType (`TypeAliasType('A', NewType('U', int))`) answers the NewType object, a ClassVar of a NewType or of an alias answers the wrapper beneath -- and the class-valued predicates built on origin() raise TypeError (issubclass() arg 1 must be a class)", detail="origin-wrappers-fixpoint")
+
+
 def r17_9(prog, rep):
     """origin(): its body, interpreted abstractly on the catalogue, yields the class itself for concrete classes, the class
     of a subscripted generic, and the documented concrete builtin for the abstract collection types."""
@@ -525,6 +561,8 @@ def run(prog: Program, rep: Report, tier: str):
     rep.rule("R17.10", "qualname()/name() name a class by its own qualified name; the text exit is for typing forms only", floor=3)
     r17_10(prog, rep)
     rep.rule("R17.9", "origin() interpreted on the catalogue reproduces the documented mapping", floor=1)
+    rep.rule("R17.13", "origin() peels nested wrappers (NewType, ClassVar, alias) to a fixpoint", floor=1)
+    r17_13(prog, rep)
     rep.rule("R17.8", "special-form predicates are computed from the facts their contracts name", floor=15)
     rep.rule("R17.1", "GENERIC_TYPE_MAP values are concrete instantiable builtins of the key's kind", floor=18)
     rep.rule("R17.2", "typing / collections.abc spellings agree", floor=16)
